@@ -39,6 +39,10 @@ func main() {
 				job.IntBound = v
 				continue
 			}
+			if a == "--fine" {
+				job.FineLattice = true
+				continue
+			}
 			if a == "--abstract" {
 				job.Abstract = true
 				continue
